@@ -38,7 +38,7 @@ ASSUMPTIONS = [
 QUICK_MODELS = ["dab", "sphere", "cylinder", "barbell", "capped_cylinder", "hollow_cylinder", "vesicle",
                 "core_shell_sphere", "lamellar", "fractal", "core_multi_shell", "triaxial_ellipsoid",
                 "core_shell_parallelepiped", "hayter_msa"]
-MESH_MODELS_QUICK = ["sphere", "cylinder", "triaxial_ellipsoid", "multilayer_vesicle", "core_shell_bicelle"]
+MESH_MODELS_QUICK = ["sphere", "cylinder", "triaxial_ellipsoid", "multilayer_vesicle", "core_shell_bicelle", "hollow_cylinder", "vesicle"]
 BOUNDS = {
     "quick": {"models": QUICK_MODELS, "D": 2, "mesh_models": MESH_MODELS_QUICK,
               "partitions": "all 2^(N-1) compositions for prod(lengths)<=12; 1-/2-cut + production schedule for N<=243"},
@@ -132,6 +132,8 @@ def cases(ctx):
             if len(names) >= k and k <= build.info(m).parameters.max_pd:
                 for lengths in fam:
                     out.append({"kind": "mesh", "model": m, "lengths": lengths})
+                    # the 2-D kernels are separate instantiations of the loop (never the <F>,<F^2> variant)
+                    out.append({"kind": "mesh", "model": m, "lengths": lengths, "q": "2d"})
     # Part B: partitions on the raw kernel
     # bit-identity does not need expensive kernels: cheap analytic models + the probe (unit and non-unit weights)
     part_models = ["cylinder", "multilayer_vesicle"]
@@ -365,8 +367,9 @@ def _run_mesh(case, ctx):
     names = disp_names(info)[:len(case["lengths"])]
     base = _defaults(info)
     spec = {n: ("gaussian", L, 0.05, 2.0) for n, L in zip(names, case["lengths"])}
-    _compare(r, case, m, "1d", base, spec, 0.0, {"model": case["model"], "mesh": "x".join(map(str, case["lengths"]))},
-             extra_branches=["mesh-family"])
+    _compare(r, case, m, case.get("q", "1d"), base, spec, 0.0,
+             {"model": case["model"], "mesh": "x".join(map(str, case["lengths"]))},
+             extra_branches=["mesh-family", "mesh-family-" + case.get("q", "1d")])
     return r
 
 
